@@ -42,7 +42,7 @@ ASSUMPTIONS = ["no exception handlers inside MiniPy programs: an exception ends 
                "a program that the compiler rejects at compile time is outside the supported subset (counted, not judged)"]
 
 # after the 'del of an unbound module global' fix is applied to /repo flip this to "1"
-DELGLOB_FIXED = os.environ.get("C01_DELGLOB_FIXED", "0")
+DELGLOB_FIXED = os.environ.get("C01_DELGLOB_FIXED", "1")
 FUEL = 40000
 
 # ------------------------------------------------------------------------------------------------
